@@ -60,6 +60,24 @@ CHECKS['C08'] = dict(
     assumptions=['herumi BLS verification is trusted', 'requests are well-formed (32-byte roots and domains)'],
 )
 
+CHECKS['C09'] = dict(
+    pkg='c09', level='exploration',
+    technique='property-based testing: model-relative generation of advancing duties (all must be signed), differential batch vs one-at-a-time on twin instances, partition oracle for util.Scatter',
+    level_text=('(a) histories whose every request is drawn relative to the reference watermark state so that the statement requires a signature '
+                '(equal source, genesis 0/0, values next to 2^63-1, restarts, batches in any key order, by name/key, service and gRPC): every one must '
+                'be SUCCEEDED with a valid signature. (b) twin real instances driven through the same prefix; a batch of 2..400 distinct keys with entries in '
+                'every relation to the watermark goes as one call to one twin and entry by entry to the other: verdicts and stored state must agree. '
+                '(c) util.Scatter(n) for n in 1..5000 x GOMAXPROCS 1..64 must hand out disjoint consecutive non-empty extents covering [0,n).'),
+    level_note='Trusts herumi BLS and badger; reading of the statement: position-by-position equality is checked for mixed batches too (DESIGN C09).',
+    parts=[part('TestC09Live', 250, 2000), part('TestC09Diff', 150, 1200), part('TestC09Scatter', 3000, 20000, tshards=4)],
+    rule=('three generators: (a) model-relative advancing histories, non-trivial iff the history has an equal-source step and a restart or a batch; '
+          '(b) twin differential batches, non-trivial iff the batch contains both an approved and a denied position; (c) Scatter(n, GOMAXPROCS), '
+          'non-trivial iff n is not divisible by GOMAXPROCS; distinct = sha256 of the case JSON'),
+    essential=['live:equal-source', 'live:genesis-0/0', 'live:near-2^63', 'live:has-restart', 'live:has-batch', 'diff:mixed-verdict-batch',
+               'diff:batch-larger-than-gomaxprocs', 'diff:batch>=100', 'scatter:n-not-divisible', 'scatter:n<gomaxprocs'],
+    assumptions=['herumi BLS verification is trusted', 'epochs below 2^63 as the statement says'],
+)
+
 ENGINES = [
     dict(name='rapid-harness', path='/verif/harness', kind_free_text='Go test module (pgregory.net/rapid v1.3.0) compiled against /repo with -tags verif; driver /verif/check shards by seed, merges coverage, writes evidence',
          serves_properties=sorted(CHECKS)),
